@@ -253,7 +253,7 @@ class BPHooks(LogNormHooks):
         return NotImplemented
 
 
-BP = dict(params=dict(self='obj:GraphicalModel', potentials='obj:dict', logZ='bool'),
+BP = dict(params=dict(self='obj:GraphicalModel', potentials='obj:dict', logZ='bool'), uses_locals=['beliefs'],
           attr_types={('GraphicalModel', 'total'): 'real'}, requires=['self.total > 0'], division='abort', module_env={},
           pure={'CliqueVector': 'obj'},
           loops={1: dict(invariant=[]), 2: dict(invariant=['ghost("n_exp_sites") == _it2', 'ghost("n_site_stored") == _it2'])},
